@@ -2,7 +2,7 @@
 
 Fault enumeration (drivers E4 + E5 of DESIGN.md). A *shape* is a pipeline with one or two
 lena.flow.Cache elements (in a Source, in a Sequence, nested, in a Split branch given as a Sequence, as
-nested Sequences, as a tuple or as the bare Cache element - the cache being the only, the first, a middle
+nested Sequences, as a tuple, as an explicit FillComputeSeq object or as the bare Cache element - the cache being the only, the first, a middle
 or the last element of the branch -, or passed through lena.core.alter_sequence /
 Cache.alter_sequence), elements in front of,
 between and behind the caches taken from {logging callable, Slice, fill/compute accumulator, in-place
@@ -60,7 +60,8 @@ ASSUMPTIONS = [
     "without data); at most two Cache elements per pipeline; cache file names are plain or one "
     "{{key}} template filled in by a SetContext of the same sequence (drop_cache() is then called "
     "once the cache stands in that sequence: before, it does not know its file)",
-    "Split placements have ONE branch (a Sequence, nested Sequences, a tuple, or the bare Cache element; "
+    "Split placements have ONE branch (a Sequence, nested Sequences, a tuple, an explicit FillComputeSeq "
+    "object - for branches that hold a fill/compute element -, or the bare Cache element; "
     "the cache its only, first, middle or last element) and a buffer that holds the whole first-run flow "
     "(a Sequence with "
     "a Cache that is run once per block is documented in lena/core/split.py as unsupported); a source of "
@@ -104,7 +105,7 @@ def _dom(tier):
 def describe(tier):
     d = _dom(tier)
     return ("flows of length 0..%d; pipeline shapes: %d (placements source, sequence, nested, split_seq, split_nested, "
-            "split_tuple, split_element, alter, cache_alter, alter_element; one or two caches; in a Split "
+            "split_tuple, split_fcseq, split_element, alter, cache_alter, alter_element; one or two caches; in a Split "
             "branch of every form the cache as only / first / middle / last element, %d of these shapes with a "
             "buffer of exactly the first-run flow and 'long' (two-block) replays; %d with SetContext elements, "
             "plain and context-formatted cache names), flow kinds ints for all "
@@ -246,6 +247,15 @@ def _shapes(tier):
         out.append(("split_nested", [SC, F, CA, G], "n"))
         out.append(("split_seq", [SC, F, CT, F2, SC2, CB], "n"))
         out.append(("source", [F, SC, CT, F2, CB, SC2], None))
+    # form of the branch, continued: a branch with a fill/compute element written as an explicit
+    # lena.core.FillComputeSeq object (what Split makes of the tuple of the same elements); the cache
+    # last and in the middle, behind the accumulator alone and behind a callable and the accumulator
+    out.append(("split_fcseq", [F, ACC, CA], "n"))
+    out.append(("split_fcseq", [ACC, CA, G], "n"))
+    out.append(("split_fcseq", [F, ACC, CA, G], "default"))
+    if thorough:
+        out.append(("split_fcseq", [ACC, CA], "default"))
+        out.append(("split_fcseq", [F, ACC, CA, G], "n"))
     return out
 
 
@@ -466,9 +476,13 @@ def _start(shape, els, tail, src, drop, counters):
         s = lena.core.Source(src, lena.core.Sequence(*els[:p + 1]), *(els[p + 1:] + tail))
         drop()
         return s()
-    if pl in ("split_seq", "split_nested", "split_tuple", "split_element"):
+    if pl in ("split_seq", "split_nested", "split_tuple", "split_element", "split_fcseq"):
         if pl == "split_seq":
             branch = lena.core.Sequence(*els)
+        elif pl == "split_fcseq":
+            # the branch is given as the fill/compute sequence it is (its elements hold a fill/compute
+            # element): one more way to write the same branch
+            branch = lena.core.FillComputeSeq(*els)
         elif pl == "split_nested":
             branch = _nest(els, M.cache_positions(elems)[0])
         elif pl == "split_element":
